@@ -295,7 +295,7 @@ pub fn setup_from_json(v: &Value, seed: u64) -> RunSetup {
 }
 
 pub fn opts_to_json(o: &ExecOpts) -> Value {
-    json!({"panic_at": o.panic_at, "log_reads": o.log_reads, "inspect": o.inspect, "lookup_cost": o.lookup_cost, "midrun_every": o.midrun_every, "post_growth": o.post_growth})
+    json!({"panic_at": o.panic_at, "log_reads": o.log_reads, "inspect": o.inspect, "lookup_cost": o.lookup_cost, "midrun_every": o.midrun_every, "post_growth": o.post_growth, "retire_check": o.retire_check})
 }
 
 pub fn opts_from_json(v: &Value) -> ExecOpts {
@@ -306,6 +306,7 @@ pub fn opts_from_json(v: &Value) -> ExecOpts {
         lookup_cost: v.get("lookup_cost").and_then(|x| x.as_bool()).unwrap_or(false),
         midrun_every: v.get("midrun_every").and_then(|x| x.as_u64()).map(|x| x as u32),
         post_growth: v.get("post_growth").and_then(|x| x.as_bool()).unwrap_or(false),
+        retire_check: v.get("retire_check").and_then(|x| x.as_bool()).unwrap_or(false),
     }
 }
 
